@@ -1,7 +1,23 @@
-"""C08 - translate returns regexes that mean exactly what match does (placeholder: differential only)."""
+"""C08 - translate returns regexes that mean exactly what match does; one capturing group per extended group."""
 import re
-from .. import util
+
+from ..runner import Outcome, HarnessError
+from .. import ast as A, ref as R, names as N, lang, util
 from ..util import F, G
+from . import c02
+
+PROPERTY = 'C08'
+RULE = ('case = (pattern list, exclusion list, flags, name); patterns from the C01/C02/C07 generators (bounded-exhaustive ASTs, '
+        'Hypothesis ASTs, lists with exclude= / NEGATE / SPLIT / BRACE / NODIR); for each case every regex from translate() is '
+        'compiled, `any(fullmatch(inc)) and not any(fullmatch(exc))` is compared with fnmatch()/globmatch() on every name up to '
+        'length 3-4 over the minterm representatives (+ "/" in path mode), the number of capturing groups is compared with the '
+        'number of extended groups of the AST (in order of opening) and, for accepted names, the text captured by each group '
+        'outside `!(...)` must be in the reference language of that group; evaluations = compared (case, name) pairs; '
+        'non-trivial = the pattern has an extended group and some name was accepted and some rejected')
+ASSUMPTIONS = [
+    'differential between two code paths of wcmatch (translate vs compile); the reference model is used only for captured text',
+    'REALPATH is excluded (translate cannot express it)',
+]
 
 
 def derive_names(p):
@@ -12,7 +28,8 @@ def derive_names(p):
 
 
 def differential(p, fn_names, gl_names, names=None):
-    """translate() regexes vs fnmatch()/globmatch() on concrete names; returns problem dicts (C10 format)."""
+    """translate() regexes vs fnmatch()/globmatch() on concrete names; returns problem dicts (C10 format).
+    Used by the atheris target on raw text."""
     problems = []
     if names is None:
         names = derive_names(p)
@@ -38,3 +55,230 @@ def differential(p, fn_names, gl_names, names=None):
                                  'pattern': p if not isb else p.decode('latin-1'), 'flags': list(flnames), 'name': nm})
                 break
     return problems
+
+
+def ext_nodes(seq, inside_neg=False, out=None):
+    """Extended groups in order of opening: list of (node, inside_negation)."""
+    if out is None:
+        out = []
+    for n in seq:
+        if n[0] == 'ext':
+            out.append((n, inside_neg or n[1] == '!'))
+            for a in n[2]:
+                ext_nodes(a, inside_neg or n[1] == '!', out)
+    return out
+
+
+def check_one(mode, pats, excl, flags, names, out, asts=None, stream='enum', extra=None):
+    """pats/excl: pattern text (str or list).  asts: list of Seq (fn) or PathPat (gl) for the group checks, or None."""
+    mod = F if mode == 'fn' else G
+    case = {'mode': mode, 'patterns': pats, 'exclude': excl, 'flags': flags, 'stream': stream}
+    if extra:
+        case.update(extra)
+    kw = {} if excl is None else {'exclude': excl}
+    try:
+        with util.watchdog(5):
+            inc_s, exc_s = mod.translate(pats, flags=flags, **kw)
+            m = mod.compile(pats, flags=flags, **kw)
+            try:
+                inc = [re.compile(r) for r in inc_s]
+                exc = [re.compile(r) for r in exc_s]
+            except re.error as e:
+                out.violation(dict(case, problem='regex does not compile', error=str(e)), bucket=('nocompile', mode))
+                return
+            acc = rej = 0
+            for nm in names:
+                want = any(r.fullmatch(nm) for r in inc) and not any(r.fullmatch(nm) for r in exc)
+                got = m.match(nm)
+                out.evaluations += 1
+                if bool(got) != bool(want):
+                    out.violation(dict(case, name=nm, translate=bool(want), impl=bool(got), problem='translate differs from match'),
+                                  size=len(str(pats)) * 10 + len(nm), bucket=('mismatch', mode, bool(want)))
+                    return
+                acc += bool(got)
+                rej += not got
+            # --- capture groups -------------------------------------------------------------------
+            if asts is not None and len(asts) == len(inc) and (flags & F.EXTMATCH):
+                for ast_, rx in zip(asts, inc):
+                    seqs = [s for s in ast_.segs if not isinstance(s, str)] if isinstance(ast_, A.PathPat) else [ast_]
+                    nodes = []
+                    for s in seqs:
+                        nodes.extend(ext_nodes(s))
+                    if rx.groups != len(nodes):
+                        if 'K1' in ARMED and '**(' in str(pats):
+                            out.known_hit('K1', dict(case, problem='group count'))
+                            return
+                        out.violation(dict(case, problem='group count', groups=rx.groups, ext_nodes=len(nodes), regex=rx.pattern),
+                                      size=len(str(pats)), bucket=('groups', mode))
+                        return
+                    if not nodes:
+                        continue
+                    for nm in names:
+                        mm = rx.fullmatch(nm)
+                        if not mm:
+                            continue
+                        for gi, (node, neg) in enumerate(nodes, 1):
+                            if neg or A.has_ext((node,), '!'):
+                                continue
+                            cap = mm.group(gi)
+                            if cap is None:
+                                continue
+                            out.evaluations += 1
+                            icase = bool(flags & F.IGNORECASE) and not (flags & F.CASE)
+                            if not R.Matcher(cap, 'plain', 'unicode' if icase else False, '/' if mode == 'gl' else '').full((node,)):
+                                out.violation(dict(case, name=nm, problem='captured text not in the language of its group', group=gi,
+                                                   captured=cap, group_text=A.render((node,)), regex=rx.pattern),
+                                              size=len(str(pats)) * 10 + len(nm), bucket=('capture', mode, node[1]))
+                                return
+            has_ext = asts is not None and any(
+                (any(A.has_ext(s) for s in a.segs if not isinstance(s, str)) if isinstance(a, A.PathPat) else A.has_ext(a)) for a in asts)
+            if acc and rej and (has_ext or asts is None):
+                out.nontrivial((mode, str(pats), str(excl), flags))
+    except util.HarnessBudget:
+        out.stats['watchdog_skipped'] += 1
+    except Exception as e:
+        # crashes belong to C10; here they only make the case inconclusive
+        out.stats['exception_skipped:' + type(e).__name__] += 1
+
+
+ARMED = set()
+
+
+def shards(tier, seed, scale=1.0):
+    out = []
+    if tier == 'quick':
+        fb, FS, pb, PS, hyp_n, fuzz = 3, 16, 3, 16, 250, 6000
+    else:
+        fb, FS, pb, PS, hyp_n, fuzz = 4, 96, 4, 128, 4000, 200000
+    for s in range(FS):
+        out.append({'name': 'fn-enum-%d' % s, 'kind': 'fn-enum', 'shard': s, 'of': FS, 'budget': fb})
+    for s in range(PS):
+        out.append({'name': 'path-enum-%d' % s, 'kind': 'path-enum', 'shard': s, 'of': PS, 'budget': pb})
+    for s in range(16):
+        out.append({'name': 'hyp-%d' % s, 'kind': 'hyp', 'seed': seed * 1000 + s, 'n': max(10, int(hyp_n * scale))})
+    return out
+
+
+def run_shard(desc):
+    ARMED.clear()
+    ARMED.update(desc['armed'])
+    k = desc['kind']
+    if k == 'fn-enum':
+        return run_fn_enum(desc)
+    if k == 'path-enum':
+        return run_path_enum(desc)
+    if k == 'hyp':
+        return run_hyp(desc)
+    raise HarnessError(k)
+
+
+FN_CFG = [F.EXTMATCH, F.EXTMATCH | F.DOTMATCH, F.EXTMATCH | F.IGNORECASE, F.EXTMATCH | F.NEGATE | F.SPLIT]
+GL_CFG = [G.EXTGLOB, G.EXTGLOB | G.GLOBSTAR | G.DOTGLOB, G.EXTGLOB | G.GLOBSTAR | G.MATCHBASE, G.EXTGLOB | G.NODOTDIR | G.NODIR,
+          G.EXTGLOB | G.GLOBSTARLONG | G.NEGATE]
+
+
+def run_fn_enum(desc):
+    out = Outcome()
+    out.exhaustive = True
+    s, S = desc['shard'], desc['of']
+    idx = 0
+    for seq in A.enum_upto(desc['budget'], A.atoms_default()):
+        idx += 1
+        if idx % S != s:
+            continue
+        alpha, _c = N.representatives([seq], extra='.\n' if idx % 8 == 0 else '.', cap=4)
+        names = list(N.all_names(alpha, 3))
+        text = A.render(seq)
+        for fl in (FN_CFG[0], FN_CFG[1 + idx % 3]):
+            check_one('fn', text, None, fl, names, out, asts=[seq], extra={'ast': A.to_json(seq)})
+        if idx % 1999 == s:
+            out.sample({'pattern': text, 'names': len(names), 'stream': 'fn-enum'})
+    return out
+
+
+def run_path_enum(desc):
+    out = Outcome()
+    out.exhaustive = True
+    s, S = desc['shard'], desc['of']
+    idx = 0
+    for segs in c02.enum_pathpats(desc['budget']):
+        idx += 1
+        if idx % S != s:
+            continue
+        seqs = [x for x in segs if not isinstance(x, str)]
+        alpha, _c = N.representatives(seqs, extra='.', cap=3)
+        paths = list(N.all_names(alpha + '/', 4))
+        for pp in c02.variants(segs, idx):
+            text = A.render_path(pp)
+            for fl in (GL_CFG[0], GL_CFG[1 + idx % 4]):
+                check_one('gl', text, None, fl, paths, out, asts=[pp], extra={'ast': A.to_json(pp)})
+        if idx % 1999 == s:
+            out.sample({'pattern': A.render_path(A.PathPat(False, segs, False, 1)), 'paths': len(paths), 'stream': 'path-enum'})
+    return out
+
+
+def run_hyp(desc):
+    from hypothesis import given, strategies as st, seed
+    out = Outcome()
+    big = desc['tier'] == 'thorough'
+    seq = A.st_seq(max_budget=10 if big else 7, max_depth=3, max_alts=3)
+    fn_bits = [F.DOTMATCH, F.IGNORECASE, F.CASE, F.NEGATE, F.MINUSNEGATE, F.SPLIT, F.BRACE, F.NEGATEALL, F.FORCEWIN, F.FORCEUNIX,
+               F.RAWCHARS]
+    gl_bits = fn_bits + [G.GLOBSTAR, G.GLOBSTARLONG, G.MATCHBASE, G.NODIR, G.NODOTDIR, G.GLOBTILDE, G.FOLLOW]
+
+    @seed(desc['seed'])
+    @util.hyp_settings(desc['n'], shrink=False)
+    @given(st.lists(seq, min_size=1, max_size=3), st.one_of(st.none(), st.lists(seq, min_size=1, max_size=2)), st.booleans(),
+           st.lists(st.sampled_from(gl_bits), max_size=5, unique=True), st.booleans(), st.data())
+    def test(incs, excs, pathmode, bits, ext, data):
+        incs = [s for s in incs if s]
+        if not incs:
+            return
+        excs = [s for s in excs if s] if excs is not None else None
+        fl = 0
+        for b in bits:
+            if pathmode or b in fn_bits:
+                fl |= b
+        if ext:
+            fl |= F.EXTMATCH
+        render = (lambda s: A.render(s)) if ext else (lambda s: A.render_plain(A.flatten_ext(s)))
+        pats = [render(s) for s in incs]
+        excl = [render(s) for s in excs] if excs else None
+        draw_int = lambda lo, hi: data.draw(st.integers(lo, hi))
+        alpha, _c = N.representatives(incs + (excs or []), icase=bool(fl & F.IGNORECASE), extra='.', cap=3)
+        names = set(N.all_names(alpha + ('/' if pathmode else ''), 3))
+        for s_ in incs:
+            for g in N.guided_names(s_, draw_int, want=2):
+                names.add(g)
+                names.add(g.swapcase())
+                if pathmode:
+                    names.add('x/' + g)
+                    names.add(g + '/')
+        names.discard('')
+        plain_single = len(pats) == 1 and excl is None and not (fl & (F.SPLIT | F.BRACE | F.NEGATE | F.RAWCHARS | G.GLOBTILDE))
+        asts = None
+        if plain_single and ext and not pathmode:
+            asts = [incs[0]]
+        out.stats['hyp_cases'] += 1
+        out.stats['hyp_lists'] += len(pats) > 1
+        out.stats['hyp_with_exclude'] += excl is not None
+        out.stats['hyp_pathmode'] += pathmode
+        check_one('gl' if pathmode else 'fn', pats if len(pats) > 1 else pats[0], excl, fl, sorted(names), out, asts=asts, stream='hyp')
+        if out.stats['hyp_cases'] % 67 == 1:
+            out.sample({'patterns': pats, 'exclude': excl, 'flags': util.names_of(fl), 'pathmode': pathmode, 'names': len(names), 'stream': 'hyp'})
+    test()
+    return out
+
+
+def replay(case):
+    util.clear_caches()
+    o = Outcome()
+    mode = case['mode']
+    asts = None
+    if 'ast' in case:
+        asts = [A.from_json(case['ast'])]
+    names = [case['name']] if case.get('name') is not None else ['a', 'ab', '.a', 'a/b']
+    if case.get('problem') in ('group count', 'regex does not compile'):
+        names = ['a']
+    check_one(mode, case['patterns'], case.get('exclude'), case['flags'], names, o, asts=asts)
+    return (not o.violations), [v[2].get('problem') for v in o.violations]
